@@ -169,7 +169,7 @@ def check_invariants(state, goal_key, item, H, case, last_method):
         raise
     except Exception as e:
         feat = sig_m + (':repeated-assumption' if repeated_assumption(state) else '')
-        H.violation('edit:recheck-fails:%s' % feat, case, '%s: %s' % (type(e).__name__, str(getattr(e, 'str', e))[:300]))
+        H.violation('edit:recheck-fails:%s' % feat, case, '%s: %s' % (type(e).__name__, harness.exc_text(e)))
         return False
     sorries = [it for _, it in edit_lib.sorry_items(state)]
     got = sorted(repr(edit_lib.thm_key(g)) for g in state.rpt.gaps)
@@ -222,7 +222,7 @@ def check_invariants(state, goal_key, item, H, case, last_method):
                     raise
                 except Exception as e:
                     H.violation(('edit:reimport:%s' % shadow) if shadow else 'edit:reimported-proof-fails-check:%s' % sig_m, case,
-                                'unicode=%s %s: %s' % (uni, type(e).__name__, str(getattr(e, 'str', e))[:300]))
+                                'unicode=%s %s: %s' % (uni, type(e).__name__, harness.exc_text(e)))
                     return False
                 with global_setting(unicode=uni):
                     lines2 = json.loads(json.dumps(st2.export_proof()))
